@@ -1,0 +1,48 @@
+//go:build verif
+
+// Contracts for contract-based deductive verification (govc, /verif).
+// This file contains comments only; it adds no code to the package.
+
+package store
+
+//@ # ---- assumed here, proved in pkg/encryption: Decrypt keeps the length and rejects data whose
+//@ # length differs from a configured padding
+//@ spec func padOf(e int) int
+//@ extern func github.com/gauss-project/aurorafs/pkg/encryption.New
+//@   ensures result != nil && padOf(ref(result)) == padding
+//@   assigns nothing
+//@ extern func (github.com/gauss-project/aurorafs/pkg/encryption.Interface).Decrypt
+//@   ensures result1 == nil ==> len(result0) == len(data) && (padOf(ref(self)) > 0 ==> len(data) == padOf(ref(self)))
+//@   ensures result1 != nil ==> len(result0) == 0
+//@   assigns nothing
+
+//@ # little-endian value of the first eight bytes (behind a function symbol of the eight bytes, so
+//@ # that two reads of the same bytes are equal by congruence, without arithmetic)
+//@ spec func le64v(b0 byte, b1 byte, b2 byte, b3 byte, b4 byte, b5 byte, b6 byte, b7 byte) int
+//@ axiom le64v-value: forall b0 byte, b1 byte, b2 byte, b3 byte, b4 byte, b5 byte, b6 byte, b7 byte :: le64v(b0, b1, b2, b3, b4, b5, b6, b7) == int(b0) + 256 * int(b1) + 65536 * int(b2) + 16777216 * int(b3) + 4294967296 * int(b4) + 1099511627776 * int(b5) + 281474976710656 * int(b6) + 72057594037927936 * int(b7)
+//@ spec func le64(b []byte) int = le64v(b[0], b[1], b[2], b[3], b[4], b[5], b[6], b[7])
+
+//@ # what the encrypted writer stored for a chunk with span S: the data itself for a leaf (S <= 256 KiB),
+//@ # 64 bytes per child reference for an intermediate chunk, i.e. 64 * ceil(S / (256 KiB * 4096^(k-1)))
+//@ # for the least level k with S <= 256 KiB * 4096^k
+//@ spec func payloadLen(S int) int = ite(S <= 262144, S, ite(S <= 1073741824, 64 * ((S + 262143) / 262144), ite(S <= 4398046511104, 64 * ((S + 1073741823) / 1073741824), ite(S <= 18014398509481984, 64 * ((S + 4398046511103) / 4398046511104), 64 * ((S + 18014398509481983) / 18014398509481984)))))
+
+//@ func decrypt
+//@   property C08
+//@   requires len(chunkData) >= 8
+//@   ensures result2 == nil ==> len(result0) == 8 && len(result1) == len(chunkData) - 8 && len(result1) == 262144
+
+//@ func newSpanEncryption
+//@   inline
+//@ func newDataEncryption
+//@   inline
+
+//@ func decryptChunkData
+//@   property C08
+//@   requires len(chunkData) >= 8
+//@   # (decryptedSpan is the function's local: the span after decryption)
+//@   ensures span-copied: result1 == nil ==> len(result0) >= 8 && le64(result0) == le64(decryptedSpan)
+//@   ensures payload-restored-to-its-stored-length: result1 == nil && le64(decryptedSpan) <= 9223372036854775807 ==> len(result0) == 8 + payloadLen(le64(decryptedSpan))
+//@   ensures at-most-a-chunk: result1 == nil ==> 8 <= len(result0) && len(result0) <= 8 + 262144
+//@   loop 1 invariant len(decryptedSpan) == 8 && pre(int(length)) == le64(decryptedSpan)
+//@   loop 1 invariant 0 <= int(length) && (pre(int(length)) <= 9223372036854775807 ==> int(length) <= pre(int(length)) && payloadLen(int(length)) == payloadLen(pre(int(length))))
